@@ -115,6 +115,9 @@ class XYContainer(IndexedContainer):
             self._data = _new_data.T.copy()
         else:
             raise ValueError("XYContainer data length must be 2 in at least one axis! " "Got shape: %r..." % (_new_data.shape,))
+        # reset member error references to the new data values
+        for _err_dict in self._error_dicts.values():
+            _err_dict["err"].reference = self._get_data_for_axis(_err_dict["axis"])
         self._clear_total_error_cache()
 
     @property
